@@ -30,15 +30,53 @@ def cases(draw):
             "seed": draw(st.integers(0, 2**31 - 2)), "pool_seed": draw(st.integers(0, 10**6)),
             "real_pool": draw(st.integers(0, 5)) == 0,
             # integer pools of a size that does / does not divide the batch
-            "pool_size": draw(st.sampled_from([2, 3, 3, 5])), "n_particles": draw(st.sampled_from([16, 16, 15, 17]))}
+            "pool_size": draw(st.sampled_from([2, 3, 3, 5])), "n_particles": draw(st.sampled_from([16, 16, 15, 17])),
+            # extra arguments of the user's likelihood (log_likelihood_args / log_likelihood_kwargs), with defaults that differ
+            "ll_extra": draw(st.sampled_from(["none", "none", "args", "kwargs", "both"]))}
+
+
+class WithExtra:
+    """The user's likelihood with an extra positional and an extra keyword parameter whose defaults differ from the configured values."""
+
+    def __init__(self, base, blobs):
+        self.base, self.blobs = base, blobs
+
+    def __call__(self, x, add=0.0, mul=1.0):
+        r = self.base(x)
+        if self.blobs:
+            return (r[0] * mul + add, r[1])
+        return r * mul + add
 
 
 def run_mode(case, mode, pool, check_calls=True):
+    from tempest import Sampler
+
     tm = "blobs" if case["blobs"] else mode
     t = Target.from_spec(simple_target_spec(np.random.default_rng(case["seed"]), case["d"], tm, zero=case["zero"]))
     np.random.seed(case["seed"])
-    s = make_sampler(t, dict(sample=case["kernel"], resample=case["resample"], clustering=case["clustering"], n_particles=int(case.get("n_particles", 16)), pool=pool,
-                             pool_seed=case["pool_seed"]))
+    extra = case.get("ll_extra", "none")
+    if extra == "none":
+        s = make_sampler(t, dict(sample=case["kernel"], resample=case["resample"], clustering=case["clustering"], n_particles=int(case.get("n_particles", 16)), pool=pool,
+                                 pool_seed=case["pool_seed"]))
+    else:
+        from vlib.targets import PermutingPool, ScriptedExecutor
+
+        kw = t.sampler_kwargs()
+        kw["log_likelihood"] = WithExtra(t.loglike, case["blobs"])
+        if extra in ("args", "both"):
+            kw["log_likelihood_args"] = [0.25]
+        if extra in ("kwargs", "both"):
+            kw["log_likelihood_kwargs"] = {"mul": 0.5}
+        pobj = pool
+        if pool == "permuting":
+            pobj = PermutingPool(case["pool_seed"])
+        elif pool == "executor":
+            pobj = ScriptedExecutor(case["pool_seed"])
+        elif pool == "threads":
+            from concurrent.futures import ThreadPoolExecutor
+
+            pobj = ThreadPoolExecutor(4)
+        s = Sampler(sample=case["kernel"], resample=case["resample"], clustering=case["clustering"], n_particles=int(case.get("n_particles", 16)), pool=pobj, **kw)
     core = core_of(s)
     st_ = core.state
     label = f"mode={mode},pool={pool!r}"
